@@ -118,6 +118,26 @@ func evaluationLoop(
 
 	p.Errors = []error{}
 
+	// an internal error must not take the process down: the check round reports
+	// it as a diagnostic of the file being analyzed
+	defer func() {
+		r := recover()
+		if r == nil {
+			return
+		}
+
+		if round != "check" || isLoad {
+			return
+		}
+
+		p.Errors = append(
+			p.Errors,
+			fmt.Errorf("%v:::%d:::internal error: %v", p.FileName, p.ErrorRow, r),
+		)
+
+		cmd.PrintAllErrorsForPlugin(p)
+	}()
+
 	for {
 		t, err := p.Read()
 		if err != nil {
